@@ -24,55 +24,66 @@ META = dict(
          "authentication failure at the wrong place). In v1 only payload/checksum damage is modelled (a damaged command or length is outside the "
          "statement). A v1 initiator that talks to a v2 responder opens with 'version'. Rekeying is crossed by a macro action (250 messages "
          "in a row). Bounded: exhaustive runs use 1-2 messages per side and fragment sizes from a small set; simulation uses realistic sizes "
-         "(garbage 0..4095, payloads 0..70000 bytes quick / up to 4,000,000 thorough).",
+         "(garbage 0..4095, payloads 0..70000 bytes; the thorough tier adds messages of the maximum size 4,000,000).",
     technique="TLA+ spec Transport + TLC exhaustive model checking of bounded instances + TLC -simulate behaviours replayed on real V1Transport/V2Transport pairs",
 )
 
 ACTIONS = ("send", "pump", "recv", "tamper", "burst", "decoy")
-SIMS = ("Sim_v2v2.cfg", "Sim_v1v1.cfg", "Sim_v1v2.cfg", "Sim_s2v2.cfg", "Sim_v2s2.cfg")
+SIMS = (("Sim_v1.cfg", 1.4), ("Sim_v2.cfg", 1.0), ("Sim_s2.cfg", 1.4), ("Sim_lost.cfg", 0.4))     # configuration file, share of behaviours
+SIMS_THOROUGH = SIMS + (("Sim_max.cfg", 0.15),)      # messages of the maximum size
+LIGHT_JVM = {"JAVA_TOOL_OPTIONS": "-XX:ParallelGCThreads=2 -XX:TieredStopAtLevel=1"}   # short runs on a shared machine
 
 
 def sim_tests(path, rng, fan_per_behaviour):
     """TLC -simulate prints, per visited state, the candidate transitions of the action it picked (same level l, same full-state key fk);
-    the successor it chose is the source of the next group. Tests: the behaviour itself, plus (sampled) the path to a visited state
-    followed by one of its other candidates (all of them are transitions of the specification)."""
+    the successor it chose is the source of the next group. Tests: the behaviour itself, plus (fan_per_behaviour sampled per behaviour)
+    the path to a visited state followed by one of its other candidates (all of them are transitions of the specification).
+    The lines are long: they are grouped on the raw text of their fields ({"l", "fk", "f", "a", "r", "tk", "t"} in this order) and only
+    the transitions that end up in a test are parsed."""
     groups = []
     with open(path) as f:
         cur = None
         for ln in f:
-            e = json.loads(ln)
-            kf = vflib.canon(e["fk"])
-            if cur is None or cur["l"] != e["l"] or cur["kf"] != kf:
-                cur = dict(l=e["l"], kf=kf, f=e["f"], edges={})
+            i_fk = ln.index('"fk":'); i_f = ln.index(',"f":{', i_fk); i_a = ln.index(',"a":[', i_f); i_r = ln.index(',"r":', i_a)
+            i_tk = ln.index(',"tk":[', i_r); i_t = ln.index(',"t":{', i_tk)
+            l = int(ln[ln.index('"l":') + 4:i_fk].strip(' ,'))
+            kf, ka, kt = ln[i_fk + 5:i_f], ln[i_a + 5:i_r], ln[i_tk + 6:i_t]
+            if cur is None or cur["l"] != l or cur["kf"] != kf:
+                cur = dict(l=l, kf=kf, edges={})
                 groups.append(cur)
-            cur["edges"].setdefault(vflib.canon([e["a"], e["tk"]]), e)
+            cur["edges"].setdefault((ka, kt), ln)
     behaviours, fans = [], []
-    steps, init, cand = [], None, []
+    state = dict(steps=[], init=None, cand=[])
+
+    def step_of(ln):
+        e = json.loads(ln)
+        return dict(a=e["a"], r=e["r"], exp=e["t"])
 
     def close():
-        if steps:
-            behaviours.append(dict(init=init, steps=steps))
-            for pre, e in rng.sample(cand, min(fan_per_behaviour, len(cand))):
-                fans.append(dict(init=init, steps=pre + [dict(a=e["a"], r=e["r"], exp=e["t"])]))
+        if state["steps"]:
+            behaviours.append(dict(init=state["init"], steps=state["steps"]))
+            cand = state["cand"]
+            for n, ln in rng.sample(cand, min(fan_per_behaviour, len(cand))):
+                fans.append(dict(init=state["init"], steps=state["steps"][:n] + [step_of(ln)]))
     for i, g in enumerate(groups):
         if g["l"] == 1:
             close()
-            steps, init, cand = [], g["f"], []
+            state = dict(steps=[], init=json.loads(next(iter(g["edges"].values())))["f"], cand=[])
         nxt = groups[i + 1] if i + 1 < len(groups) else None
         chosen = None
         if nxt is not None and nxt["l"] == g["l"] + 1:
-            for e in g["edges"].values():
-                if vflib.canon(e["tk"]) == nxt["kf"]:
-                    chosen = e
+            for (ka, kt), ln in g["edges"].items():
+                if kt == nxt["kf"]:
+                    chosen = (ka, kt)
                     break
             if chosen is None:
                 raise vflib.InfraError("simulation output is not a chain at level %d (%s)" % (g["l"], path))
         if chosen is None:
-            chosen = next(iter(g["edges"].values()))
-        for e in g["edges"].values():
-            if e is not chosen:
-                cand.append((steps, e))
-        steps = steps + [dict(a=chosen["a"], r=chosen["r"], exp=chosen["t"])]
+            chosen = next(iter(g["edges"]))
+        for k, ln in g["edges"].items():
+            if k != chosen:
+                state["cand"].append((len(state["steps"]), ln))
+        state["steps"].append(step_of(g["edges"][chosen]))
     close()
     return behaviours, fans
 
@@ -119,23 +130,27 @@ def run(ctx):
 
     # ---- exhaustive model checking of bounded instances (all invariants of C32) and, side by side, the simulations (E2) of every
     # endpoint configuration. TLC -simulate is single-threaded and the quick instances are small, so everything runs in one pool.
-    mcs = ["MC_v1v1_q.cfg", "MC_v1v2_q.cfg", "MC_v2v2_q.cfg", "MC_s2v2_q.cfg"] if quick else \
-          ["MC_v1v1_q.cfg", "MC_v1v2_q.cfg", "MC_v2v2_q.cfg", "MC_s2v2_q.cfg", "MC_v1v1_t.cfg", "MC_v1v2_t.cfg", "MC_v2v2_t.cfg", "MC_s2v2_t.cfg", "MC_v2s2_t.cfg"]
+    mcs = ["MC_v1_q.cfg", "MC_v2_q.cfg", "MC_s2_q.cfg"]
+    if not quick:
+        mcs += ["MC_v1v1_t.cfg", "MC_v1v2_t.cfg", "MC_v2_t.cfg", "MC_v2_b.cfg", "MC_s2_t.cfg"]
     if os.environ.get("C32_SKIP_MC"):           # convenience for tools/mutcheck.sh, where only the C++ changes
         mcs = []
-    num, depth, fan = (60, 50, 12) if quick else (500, 70, 25)
+    # behaviours per unit share, depth, alternative-call tests per behaviour
+    num, depth, fan = (50, 50, 12) if quick else (300, 70, 12)
+    simcfgs = SIMS if quick else SIMS_THOROUGH
     jobs = max(1, vflib.free_cpus())
+    env = LIGHT_JVM if quick else None
     with concurrent.futures.ThreadPoolExecutor(max_workers=jobs if quick else max(1, jobs // 2)) as ex:
-        futs = [ex.submit(ctx.tlc, "Transport", "MCTransport", cfg if quick or cfg == "Sim_v1v2.cfg" else cfg.replace(".cfg", "_t.cfg"), name=cfg[:-4],
-                          simulate=(num, depth), xmx="2g", timeout=2400) for cfg in SIMS]
-        mfuts = [ex.submit(ctx.tlc, "Transport", "MCTransport", mc, timeout=2400, xmx="3g" if quick else "8g", workers=1 if quick else 2) for mc in mcs]
+        futs = [ex.submit(ctx.tlc, "Transport", "MCTransport", cfg, name=cfg[:-4],
+                          simulate=(int(num * share), depth), xmx="2g", timeout=2400, env=env) for cfg, share in simcfgs]
+        mfuts = [ex.submit(ctx.tlc, "Transport", "MCTransport", mc, timeout=2400, xmx="3g" if quick else "8g", workers=1 if quick else 2, env=env) for mc in mcs]
         sims = [f.result() for f in futs]
         mres = [f.result() for f in mfuts]
     ctx.states = sum(r.distinct for r in mres) + sum(r.generated for r in sims)
     ctx.transitions = sum(r.generated for r in mres) + sum(r.generated for r in sims)
     stats = collections.Counter(); per_action = collections.Counter()
     tests = []
-    for cfg, r in zip(SIMS, sims):
+    for (cfg, _), r in zip(simcfgs, sims):
         behaviours, fans = sim_tests(r.emit_path, rng, fan)
         ctx.log("E2 %s: %d behaviours (%d steps), %d alternative-call tests" % (cfg, len(behaviours), sum(len(b["steps"]) for b in behaviours), len(fans)))
         for t in behaviours:
@@ -172,4 +187,4 @@ def run(ctx):
         "bounded: exhaustive instances with 1-2 messages per side and few fragment sizes; realistic sizes only in sampled behaviours"]
     return ctx.finish(level="model_checking", exhaustive=False,
                       rule="TLC -simulate behaviours of five endpoint configurations replayed whole, plus for sampled visited states the path to the state and "
-                           "one alternative call; non-trivial = distinct behaviours in which a message is delivered or a flipped bit ends in a failed connection")
+                           "one alternative call the specification offers there; non-trivial = distinct behaviours in which a message is delivered or a flipped bit ends in a failed connection")
